@@ -37,7 +37,11 @@ type verifTask struct {
 	retries    int
 	retryAfter time.Duration
 	failUndo   bool
+	sameErr    bool // fails with a message other tasks fail with too
 	ignoreKill bool
+	waitBySet  bool // enter Wait through Task.SetToWait + nil (as restart.FinishTaskWithRestart) instead of returning *state.Wait
+	undoWait   bool // the undo also waits for a reboot (waited status Undone)
+	undoWaited bool
 	lanes      []int
 	waits      []string
 	halts      []string
@@ -66,10 +70,20 @@ type verifParked struct {
 type verifBackendA struct {
 	mu       sync.Mutex
 	w        *verifWorldA
+	st       *state.State
 	gen      int
 	dead     bool
 	failNext int
 	failed   int
+}
+
+// verifParkedWrite is a checkpoint write issued WITHOUT the state lock held
+// (never the case on the unchanged tree): such a write can be slow, so the
+// simulator parks it and decides when it lands.
+type verifParkedWrite struct {
+	data []byte
+	ch   chan struct{}
+	seq  int
 }
 
 func (b *verifBackendA) Checkpoint(data []byte) error {
@@ -82,6 +96,19 @@ func (b *verifBackendA) Checkpoint(data []byte) error {
 		b.failNext--
 		b.failed++
 		return errors.New("verif: injected checkpoint failure")
+	}
+	if b.st != nil && !b.st.VerifLockHeld() {
+		pw := &verifParkedWrite{data: append([]byte(nil), data...), ch: make(chan struct{}), seq: b.w.writeSeq}
+		b.w.writeSeq++
+		b.w.parkedWrites = append(b.w.parkedWrites, pw)
+		b.mu.Unlock()
+		<-pw.ch
+		b.mu.Lock()
+		if b.dead {
+			return nil
+		}
+		b.w.payloads = append(b.w.payloads, pw.data)
+		return nil
 	}
 	b.w.payloads = append(b.w.payloads, append([]byte(nil), data...))
 	return nil
@@ -115,8 +142,11 @@ type verifWorldA struct {
 	mu  sync.Mutex
 	gen int
 
-	parked   []*verifParked
-	payloads [][]byte
+	parked       []*verifParked
+	parkedWrites []*verifParkedWrite
+	writeSeq     int
+	ackDone      map[string]bool // finished tasks seen at a quiescent point with no write in flight
+	payloads     [][]byte
 	nextEnsure time.Time
 
 	st *state.State
@@ -180,6 +210,7 @@ func (w *verifWorldA) installOrderHooks() {
 
 func (w *verifWorldA) newInstance(st *state.State) {
 	w.st = st
+	w.be.st = st
 	w.r = state.NewTaskRunner(st)
 	w.r.AddHandler("u", w.handler(false, w.gen), w.handler(true, w.gen))
 	w.r.AddHandler("n", w.handler(false, w.gen), nil)
@@ -197,7 +228,7 @@ type verifCfgA struct {
 }
 
 func verifRunA(c *verifsim.Ctx) {
-	w := &verifWorldA{c: c, tasks: map[string]*verifTask{}}
+	w := &verifWorldA{c: c, tasks: map[string]*verifTask{}, ackDone: map[string]bool{}}
 	w.installOrderHooks()
 	defer func() { state.VerifOrderTasks = nil; state.VerifOrderChanges = nil }()
 	t0 := time.Now()
@@ -236,7 +267,7 @@ func verifRunA(c *verifsim.Ctx) {
 		vc := &verifChange{idx: ci, id: chg.ID()}
 		w.changes = append(w.changes, vc)
 		n := 2 + c.Draw("ntasks", 9)
-		nl := c.Draw("nlanes", 4)
+		nl := c.Draw("nlanes", 5)
 		lanes := []int{}
 		for i := 0; i < nl; i++ {
 			lanes = append(lanes, st.NewLane())
@@ -259,12 +290,17 @@ func verifRunA(c *verifsim.Ctx) {
 			} else if cfg.wait && c.Chance("wait", 1, 6) {
 				vt.script = verifScriptWait
 			}
+			if cfg.wait {
+				vt.waitBySet = c.Chance("wait-by-set", 1, 2)
+				vt.undoWait = kind == "u" && c.Chance("undo-wait", 1, 6)
+			}
 			if cfg.pFail > 0 && c.Chance("failundo", cfg.pFail, 40) {
 				vt.failUndo = true
 			}
 			vt.ignoreKill = c.Chance("ignorekill", 1, 2)
+			vt.sameErr = c.Chance("same-error-text", 1, 3)
 			if nl > 0 {
-				k := c.Draw("nlanes-of-task", 3)
+				k := c.Draw("nlanes-of-task", 4)
 				for j := 0; j < k; j++ {
 					l := lanes[c.Draw("lane", nl)]
 					dup := false
@@ -344,7 +380,7 @@ func verifRunA(c *verifsim.Ctx) {
 		})
 		np := len(w.parked)
 		w.mu.Unlock()
-		if allReady && np == 0 {
+		if allReady && np == 0 && len(w.parkedWrites) == 0 {
 			break
 		}
 
@@ -372,6 +408,7 @@ func verifRunA(c *verifsim.Ctx) {
 			kind string
 			p    *verifParked
 			id   string
+			pw   *verifParkedWrite
 		}
 		var acts []action
 		due := !w.nextEnsure.IsZero() && !w.nextEnsure.After(now)
@@ -383,6 +420,9 @@ func verifRunA(c *verifsim.Ctx) {
 		}
 		for _, id := range w.waitingTasks() {
 			acts = append(acts, action{kind: "resolve", id: id})
+		}
+		for _, pw := range w.parkedWrites {
+			acts = append(acts, action{kind: "land-write", pw: pw})
 		}
 		if !due && cfg.spontaneous && c.Chance("spont?", 1, 6) {
 			acts = append([]action{{kind: "ensure"}}, acts...)
@@ -441,6 +481,8 @@ func verifRunA(c *verifsim.Ctx) {
 			w.release(a.p)
 		case "resolve":
 			w.resolveWait(a.id)
+		case "land-write":
+			w.landWrite(a.pw)
 		}
 	}
 	if len(c.Violations) == 0 {
@@ -477,6 +519,27 @@ func (w *verifWorldA) ensure() {
 		w.nextEnsure = time.Now().Add(5 * time.Minute)
 	}
 	w.afterAction()
+}
+
+func (w *verifWorldA) landWrite(pw *verifParkedWrite) {
+	for i, q := range w.parkedWrites {
+		if q == pw {
+			w.parkedWrites = append(w.parkedWrites[:i], w.parkedWrites[i+1:]...)
+			break
+		}
+	}
+	w.c.Logf("unlocked checkpoint write #%d lands", pw.seq)
+	w.c.Count("probe:checkpoint-written-without-lock")
+	pw.ch <- struct{}{}
+	w.afterAction()
+}
+
+func (w *verifWorldA) releaseWrites() {
+	pws := w.parkedWrites
+	w.parkedWrites = nil
+	for _, pw := range pws {
+		pw.ch <- struct{}{}
+	}
 }
 
 func (w *verifWorldA) waitingTasks() []string {
@@ -612,6 +675,16 @@ func (w *verifWorldA) release(p *verifParked) {
 			res = errors.New("undo-boom-" + vt.label)
 			c.Count("fault:undo-error")
 			c.Nontrivial()
+		} else if vt.undoWait && !vt.undoWaited && !killed {
+			vt.undoWaited = true
+			vt.undoApplied++
+			vt.lastOp = "undo"
+			c.Count("probe:undo-wait-returned")
+			if vt.waitBySet {
+				w.setToWait(vt, state.UndoneStatus)
+			} else {
+				res = &state.Wait{Reason: "verif", WaitedStatus: state.UndoneStatus}
+			}
 		} else {
 			vt.undoApplied++
 			vt.lastOp = "undo"
@@ -622,7 +695,7 @@ func (w *verifWorldA) release(p *verifParked) {
 			res = errors.New("killed-" + vt.label)
 			c.Count("probe:killed-in-flight")
 		case vt.script == verifScriptFail:
-			res = errors.New("do-boom-" + vt.label)
+			res = errors.New(vt.doErrText())
 			c.Count("fault:do-error")
 			c.Nontrivial()
 		case vt.script == verifScriptRetry && vt.retries > 0:
@@ -635,7 +708,11 @@ func (w *verifWorldA) release(p *verifParked) {
 		case vt.script == verifScriptWait && vt.doApplied == 0:
 			vt.doApplied++
 			vt.lastOp = "do"
-			res = &state.Wait{Reason: "verif", WaitedStatus: state.DoneStatus}
+			if vt.waitBySet && !killed {
+				w.setToWait(vt, state.DoneStatus)
+			} else {
+				res = &state.Wait{Reason: "verif", WaitedStatus: state.DoneStatus}
+			}
 			c.Count("probe:wait-returned")
 		default:
 			if killed {
@@ -652,6 +729,24 @@ func (w *verifWorldA) release(p *verifParked) {
 	c.Logf("%s %s killed=%v -> %s", what, vt.label, killed, rs)
 	p.ch <- res
 	w.afterAction()
+}
+
+// setToWait is what a handler does before returning nil when it needs a
+// reboot (restart.FinishTaskWithRestart): the task parks itself.
+func (w *verifWorldA) setToWait(vt *verifTask, waited state.Status) {
+	w.st.Lock()
+	defer w.st.Unlock()
+	if t := w.st.Task(vt.id); t != nil && (t.Status() == state.DoingStatus || t.Status() == state.UndoingStatus) {
+		t.SetToWait(waited)
+		w.c.Count("probe:wait-by-settowait")
+	}
+}
+
+func (vt *verifTask) doErrText() string {
+	if vt.sameErr {
+		return "do-boom-shared"
+	}
+	return "do-boom-" + vt.label
 }
 
 func (w *verifWorldA) changeStatusChanged(chg *state.Change, old, new state.Status) {
@@ -675,6 +770,16 @@ func (w *verifWorldA) observe() {
 	w.st.Lock()
 	defer w.st.Unlock()
 	now := time.Now()
+
+	// what a client could have been told by now: with no write in flight every
+	// finished task seen here is covered by the last checkpoint
+	if len(w.parkedWrites) == 0 && !w.st.Modified() {
+		for _, t := range w.st.Tasks() {
+			if t.Status() == state.DoneStatus || t.Status() == state.UndoneStatus {
+				w.ackDone[t.ID()+"/"+t.Status().String()] = true
+			}
+		}
+	}
 
 	// newly started handlers, canonical order
 	w.mu.Lock()
@@ -858,6 +963,7 @@ func (w *verifWorldA) teardown() {
 	for _, p := range ps {
 		p.ch <- errors.New("verif: torn down")
 	}
+	w.releaseWrites()
 	synctest.Wait()
 	w.r.Stop()
 	synctest.Wait()
@@ -881,9 +987,11 @@ func (w *verifWorldA) crash() {
 	if lo < 0 {
 		lo = 0
 	}
+	lostSome := false
 	if k > lo {
 		if d := c.Draw("crash-loses-checkpoints", k-lo+1); d > 0 {
 			k -= d
+			lostSome = true
 			c.Count("fault:crash-lost-unsynced-checkpoints")
 		}
 	}
@@ -931,6 +1039,7 @@ func (w *verifWorldA) crash() {
 		c.Logf("crash kills handler %s undo=%v effect-applied=%v", p.t.label, p.undo, applied)
 		p.ch <- errors.New("verif: process died")
 	}
+	w.releaseWrites()
 	synctest.Wait()
 	w.r.Stop()
 	synctest.Wait()
@@ -983,6 +1092,7 @@ func (w *verifWorldA) crash() {
 			c.Violate("C04/tasks-lost-or-duplicated", "%d tasks after restart, %d before", n, len(w.tasks))
 		}
 	}
+	defer func() { w.ackDone = map[string]bool{} }() // acknowledgements restart from what was durable
 	for _, vc := range w.changes {
 		// the ready bookkeeping restarts from what was durable
 		chg := st.Change(vc.id)
@@ -998,6 +1108,15 @@ func (w *verifWorldA) crash() {
 				continue
 			}
 			s := t.Status()
+			if !lostSome && c.Active("C04") {
+				// finished work must not be rolled back to "not yet done"
+				if w.ackDone[vt.id+"/Done"] && (s == state.DoStatus || s == state.DoingStatus) {
+					c.Violate("C04/finished-task-not-durable", "%s was Done at a quiescent point before the stop (all writes completed), the state read back after the restart says %v", vt.label, s)
+				}
+				if w.ackDone[vt.id+"/Undone"] && s != state.UndoneStatus {
+					c.Violate("C04/finished-task-not-durable", "%s was Undone at a quiescent point before the stop (all writes completed), the state read back after the restart says %v", vt.label, s)
+				}
+			}
 			if rt, ok := raw.Tasks[vt.id]; ok && c.Active("C04") {
 				ps := state.Status(rt.Status)
 				if ps == state.DefaultStatus {
@@ -1203,13 +1322,10 @@ func (w *verifWorldA) finalOracles() {
 					break
 				}
 				msg := err.Error()
-				wantDo, wantUndo := "do-boom-"+vt.label, "undo-boom-"+vt.label
+				wantDo, wantUndo := vt.doErrText(), "undo-boom-"+vt.label
 				wantKilled := "killed-" + vt.label
-				if !strings.Contains(msg, "("+wantDo+")") && !strings.Contains(msg, "("+wantUndo+")") && !strings.Contains(msg, "("+wantKilled+")") {
-					c.Violate("C03/err-incomplete", "change %d: Err() %q does not report the error of failed task %s", vc.idx, msg, vt.label)
-				}
-				if !strings.Contains(msg, "- "+vt.label+" (") {
-					c.Violate("C03/err-incomplete", "change %d: Err() %q does not name failed task %s", vc.idx, msg, vt.label)
+				if !strings.Contains(msg, "- "+vt.label+" ("+wantDo+")") && !strings.Contains(msg, "- "+vt.label+" ("+wantUndo+")") && !strings.Contains(msg, "- "+vt.label+" ("+wantKilled+")") {
+					c.Violate("C03/err-incomplete", "change %d: Err() %q does not name failed task %s with the error it failed with", vc.idx, msg, vt.label)
 				}
 			}
 			if !anyErr && err != nil && chg.Status() != state.ErrorStatus {
